@@ -413,6 +413,34 @@ package tree
 //@   loop 2 invariant srngesOK(srnges) && len(srnges.rnges) == $n && typeSchema != nil && rangesOK(typeSchema.Range)
 //@   loop 2 invariant signed_range_bounds: called(SRnges_AddRange) ==> callarg(SRnges_AddRange, 0, 1) == sBound(typeSchema.Range[$i].Min) && callarg(SRnges_AddRange, 0, 2) == sBound(typeSchema.Range[$i].Max)
 
+// C04: the length statement restricts the number of characters of a string value (RFC 7950, 9.4.4), whatever the
+// characters take in bytes. The count itself is the library's; which value is counted, against which bounds, and
+// that the verdict is reported exactly once or not at all is proved here.
+//@ spec runeCount(string) int
+//@ extern unicode/utf8.RuneCountInString
+//@   noeffect
+//@   ensures result == runeCount(s) && result >= 0
+//@ pred lengthsOK(ls) = forall(i, 0, len(ls), ls[i] != nil && ls[i].Min != nil && ls[i].Max != nil)
+//@ pred inLength(ls, n) = exists(i, 0, len(ls), ls[i].Min.Value <= n && n <= ls[i].Max.Value)
+//@ func (*sharedEntryAttributes).validateLength
+//@   props C04
+//@   requires s != nil && lvFull(s.leafVariants)
+//@   requires field_schemas_are_typed: s.schema.GetField() != nil ==> s.schema.GetField().Type != nil && lengthsOK(s.schema.GetField().Type.Length)
+//@   uses GetHighestPrecedence: member view_is_total
+//@   let n0 = ntrace()
+//@   let lengths = s.schema.GetField().Type.Length
+//@   ensures unrestricted_is_silent: s.schema.GetField() == nil || len(lengths) == 0 ==> ntrace() == n0
+//@   ensures the_value_in_force_is_measured_in_characters: called(RuneCountInString) ==> callres(RuneCountInString, 0) == runeCount(callres(GetStringVal, 0)) &&
+//@            callarg(GetStringVal, 0, 0) == callres(Value, 0, 0) && callarg(Value, 0, 0) == callres(GetHighestPrecedence, 0).Update
+//@   ensures within_the_allowed_length_is_silent: called(RuneCountInString) && inLength(lengths, callres(RuneCountInString, 0)) ==> ntrace() == n0
+//@   ensures outside_the_allowed_length_is_reported: called(RuneCountInString) && !inLength(lengths, callres(RuneCountInString, 0)) ==> ntrace() == n0 + 1
+//@   ensures a_restricted_leaf_with_a_value_is_looked_at: s.schema.GetField() != nil && len(lengths) > 0 && len(s.leafVariants.les) > 0 ==> called(Value)
+//@   ensures a_readable_value_is_measured: called(Value) && callres(Value, 0, 1) == nil ==> called(RuneCountInString)
+//@   loop 0 invariant schema != nil && schema.Type != nil && schema.Type.Length == lengths && lengthsOK(lengths)
+//@   loop 1 invariant schema != nil && schema.Type != nil && schema.Type.Length == lengths && lengthsOK(lengths)
+//@   loop 0 invariant ntrace() == n0 && actualLength == callres(RuneCountInString, 0) && forall(j, 0, $n, !(lengths[j].Min.Value <= actualLength && actualLength <= lengths[j].Max.Value))
+//@   loop 1 invariant ntrace() == n0
+
 // ---------------------------------------------------------------------------
 // C11 (and leafref navigation, C04): FilterChilds returns list entries only, never the key-level entries above them.
 // lvl(e) is the depth of an entry in the tree; the relation between an entry and its children map is assumed
